@@ -179,13 +179,15 @@ theorem head_unchanged_on_failure (d : D) (o : Wire.Op) (hf : (runTx d o).2 ≠ 
   · subst hp; intro _; rfl
   · subst hp; intro _; rfl
   · split at hp
+    · subst hp; intro _; rfl
     · split at hp
-      · subst hp; intro h; exact absurd rfl h
-      · subst hp; intro _; rfl
-      · subst hp; intro _; rfl
-    · split at hp
-      · subst hp; intro _; rfl
-      · subst hp; intro _; rfl
+      · split at hp
+        · subst hp; intro h; exact absurd rfl h
+        · subst hp; intro _; rfl
+        · subst hp; intro _; rfl
+      · split at hp
+        · subst hp; intro _; rfl
+        · subst hp; intro _; rfl
 
 /-- only the execution-block message moves the head: every other transaction kind leaves it -/
 theorem only_ethblock_moves_head (d : D) (o : Wire.Op) (hk : o.kind ≠ "tx.ethblock") :
@@ -195,8 +197,10 @@ theorem only_ethblock_moves_head (d : D) (o : Wire.Op) (hk : o.kind ≠ "tx.ethb
   · rfl
   · rfl
   · split
-    · rename_i h; simp at h; exact absurd h hk
-    · split <;> rfl
+    · rfl
+    · split
+      · rename_i h; simp at h; exact absurd h hk
+      · split <;> rfl
 
 
 /-! ### retrying after the fault clears gives the same result as a fault-free run -/
@@ -232,11 +236,13 @@ theorem runTx_keeps_snap (d : D) (o : Wire.Op) : (runTx d o).1.snap = d.snap := 
   · rfl
   · rfl
   · split
+    · rfl
     · split
-      · rename_i d' h; exact newEthBlock_keeps_snap d d' o h
-      · rfl
-      · rfl
-    · split <;> rfl
+      · split
+        · rename_i d' h; exact newEthBlock_keeps_snap d d' o h
+        · rfl
+        · rfl
+      · split <;> rfl
 
 /-- **Retry = fault-free run.**  Let a block be started on `d`, let `body` be whatever runs inside it
     (any composition of steps that do not touch the saved pre-state, e.g. transactions: `runTx_keeps_snap`),
